@@ -97,9 +97,7 @@ def rule_read_set(ctx):
         ctx.check("UNION ALL" in cte and "creator" in cte and not re.search(r"\bdetached\b", cte), f"step.{const}", "the recursion covers every product step, attached or not",
                   "the recursion over product steps is filtered on `detached`: below the first level nothing is visited, so suppliers (or products) deeper in a dropped sub-plan keep stale scheduling attributes", "no detached filter in the CTE")
     ctx.check("self.db.execute('UPDATE step SET _check_after = 1 WHERE node = ?', (creator.i,))" in src and "self.db.execute(RECONCILE_TARGET_DIRS)" in src, rt.fq, "producers of exact and directory targets are flagged", "newly targeted producers are not recomputed", "flagged")
-    sv = ctx.prog.func("director.serve")
-    seq = [callee_name(c) for c in calls_in(sv.node) if callee_name(c) in ("reconcile_targets", "_run_tasks", "initialize_boot", "resume_from_db")]
-    ctx.check("reconcile_targets" in seq and seq.index("reconcile_targets") < seq.index("_run_tasks") and seq.index("reconcile_targets") > seq.index("initialize_boot"), sv.fq, "targets are reconciled after boot/resume and before the first tick", f"order {seq}", "order kept")
+    shared.check_targets_reconciled_after_resume(ctx, "targets are judged against states that the startup rescans have not updated yet: a target whose declaration is about to be replaced by an edited plan.py is rejected (or a stale elevation is kept)")
     prop = _norm(ctx.prog.fold("scheduler", "PROPAGATE_CHECK_AFTER"))
     ctx.check("WHERE NOT source_node.detached AND dep2.sink IN ( SELECT dep1.source FROM dependency AS dep1 WHERE dep1.sink IN (SELECT i FROM changed_after) )" in prop, "scheduler.PROPAGATE_CHECK_AFTER", "changes propagate to the (attached) suppliers two hops upstream", "propagation direction or hop count changed", "upstream two hops")
     si = ctx.prog.func("scheduler.Scheduler.initialize")
@@ -172,6 +170,7 @@ RULES = [
 ]
 
 MUTANTS = [
+    Mutant("reconcile-before-resume", "director.py", in_function("serve", lambda s: s.replace("    if initialized:\n        await reporter(\"STARTUP\", \"(Re)initialized boot script\")\n    else:\n        await resume_from_db(handler.workflow, reporter, handler.builder)\n", "", 1).replace("    await _run_tasks(", "    if initialized:\n        await reporter(\"STARTUP\", \"(Re)initialized boot script\")\n    else:\n        await resume_from_db(handler.workflow, reporter, handler.builder)\n    await _run_tasks(", 1) if "        await resume_from_db(handler.workflow, reporter, handler.builder)\n" in s else None), ("R-C11-2",)),
     Mutant("targets-after-cd", "tui.py", in_function("_async_build", lambda s: s.replace("    targets, target_dirs = _normalize_targets(args.targets, stepup_root)\n", "", 1).replace("    _reset_stepup_dir()\n", "    targets, target_dirs = _normalize_targets(args.targets, stepup_root)\n    _reset_stepup_dir()\n", 1) if "    targets, target_dirs = _normalize_targets(args.targets, stepup_root)\n" in s and "    _reset_stepup_dir()\n" in s else None), ("R-C11-4",)),
     Mutant("edge-delete-skips-suppliers", "step.py", replace_once("    UPDATE step SET _check_after = 1\n    WHERE node IN (SELECT source FROM dependency WHERE sink = OLD.source);\n", ""), ("R-C11-2",)),
     Mutant("detached-subtree-one-level", "step.py", replace_once("        JOIN subtree ON node.creator = subtree.node\n        WHERE node.kind = 'step'\n", "        JOIN subtree ON node.creator = subtree.node\n        WHERE node.kind = 'step' AND NOT node.detached\n"), ("R-C11-2",)),
